@@ -256,6 +256,24 @@ def unit_c18_attr(args):
                         setattr(a, k, old)
                         if not strict_eq(ra(), before_data):
                             bad("obj.%s = v (protected) changed the data" % k, "protected-set")
+                    # a protected name that is a settable property of the class (e.g. `filename`): assigning a
+                    # NEW value through attribute syntax runs the setter - whatever it does internally, the
+                    # data must not change (an internal `self._x = ...` on an unprotected name lands in the data)
+                    desc = getattr(type(a), k, None)
+                    if depth == 0 and isinstance(desc, property) and desc.fset is not None and had:
+                        import os as _os
+                        newv = _os.path.join(tmp, "c18_rebound_%s.json" % k) if k == "filename" else old
+                        try:
+                            setattr(a, k, newv)
+                            mid = copy.deepcopy(ra())
+                            setattr(a, k, old)
+                            after = copy.deepcopy(ra())
+                        except Exception as e:  # noqa: BLE001
+                            bad("obj.%s = %r (settable protected property) raised %s" % (k, newv, type(e).__name__), "property-set")
+                        else:
+                            if not strict_eq(mid, before_data) or not strict_eq(after, before_data) or not strict_eq(world.read(0), before_data):
+                                bad("obj.%s = %r (a protected, settable property) changed the data: %r, after setting it back %r, "
+                                    "resource %r; before: %r" % (k, newv, mid, after, world.read(0), before_data), "property-set")
                 # ---- dunders
                 for k in dunders:
                     n += 1
